@@ -54,6 +54,7 @@ type Conn struct {
 	closed  bool // lal called Close
 	st      state
 	owned   bool // has an owning goroutine registered through World.Go
+	client  bool // opened by lal itself (a dial): no World.Go wrapper, finished once lal closed it
 	stalled bool // Write blocks while true (consumer not reading, socket buffer full)
 	inWrite int  // goroutines currently blocked in Write
 	Local   string
@@ -72,6 +73,25 @@ func (w *World) NewConn(name string) *Conn {
 	c := &Conn{w: w, Name: name, Local: "127.0.0.1:1935", Remote: fmt.Sprintf("10.0.0.%d:%d", 1+len(w.conns)%250, 40000+len(w.conns)), st: stRunning}
 	w.conns = append(w.conns, c)
 	return c
+}
+
+// NewClientConn is a connection lal opened itself (the result of a dial): the goroutines using it
+// are lal's own; it counts as busy until it is blocked in Read with nothing to read, and as finished
+// once lal has closed it.
+func (w *World) NewClientConn(name string) *Conn {
+	c := w.NewConn(name)
+	w.mu.Lock()
+	c.owned, c.client, c.st = true, true, stRunning
+	c.Local, c.Remote = c.Remote, "10.9.9.9:1935"
+	w.mu.Unlock()
+	return c
+}
+
+// IsQuiescent is a non-blocking look.
+func (w *World) IsQuiescent() bool {
+	w.mu.Lock()
+	defer w.mu.Unlock()
+	return w.quiescentLocked()
 }
 
 // Go runs f as the goroutine owning c (the session goroutine lal would give the connection).
@@ -125,7 +145,7 @@ func (w *World) quiescentLocked() bool {
 		return false
 	}
 	for _, c := range w.conns {
-		if !c.owned {
+		if !c.owned || (c.client && c.closed) {
 			continue
 		}
 		switch c.st {
